@@ -74,7 +74,7 @@ _SAFE_BUILTINS = {
 }
 
 _SAFE_METHODS = {
-    str: {"removeprefix", "removesuffix", "isalpha", "isalnum", "isidentifier", "splitlines", "title", "capitalize", "index", "rfind", "casefold", "center", "ljust", "rjust", "expandtabs", "encode",
+    str: {"rpartition", "removeprefix", "removesuffix", "isalpha", "isalnum", "isidentifier", "splitlines", "title", "capitalize", "index", "rfind", "casefold", "center", "ljust", "rjust", "expandtabs", "encode",
           "split", "startswith", "endswith", "lower", "upper", "replace", "strip", "join", "format", "rsplit", "partition", "zfill", "isdigit", "lstrip", "rstrip", "find", "count"},
     # mutators are allowed: every value here is a model value owned by the evaluator
     list: {"index", "count", "copy", "append", "insert", "pop", "extend", "remove", "reverse", "sort", "clear"},
@@ -412,6 +412,18 @@ class MiniEval:
             self.env[target.id] = value
         elif isinstance(target, (ast.Tuple, ast.List)):
             vals = list(value)
+            stars = [i for i, t in enumerate(target.elts) if isinstance(t, ast.Starred)]
+            if len(stars) == 1:
+                i = stars[0]
+                after = len(target.elts) - i - 1
+                if len(vals) < len(target.elts) - 1:
+                    raise ModelRaise("ValueError", f"not enough values to unpack (expected at least {len(target.elts) - 1}, got {len(vals)})")
+                for t, v in zip(target.elts[:i], vals[:i]):
+                    self._bind(t, v)
+                self._bind(target.elts[i].value, vals[i:len(vals) - after])
+                for t, v in zip(target.elts[i + 1:], vals[len(vals) - after:] if after else []):
+                    self._bind(t, v)
+                return
             if len(vals) != len(target.elts):
                 raise ModelRaise("ValueError", f"cannot unpack {len(vals)} value(s) into {len(target.elts)} target(s)")
             for t, v in zip(target.elts, vals):
